@@ -233,6 +233,14 @@ def relevant(prop, fields, a, b, opline=""):
             if prop == "C07":
                 return incoherent
             # C16 / C17 also own everything the scenario line itself (the panic / the forgotten iterator) shows
+            if prop == "C17" and set(fields) <= {"ret", "h", "hs"}:
+                return False    # *what* an iterator yields is C12's subject; C17 is about what is left behind
+            if prop == "C16" and not incoherent and "!" in opline and "panic" in (a.get("st"), b.get("st")):
+                # the line of the panic: C16 speaks about what is lost, dropped and accounted — not about the
+                # relative order of what stays (C05 and the operation's own property)
+                ob = _items(b.get("ord"))
+                same = ob is not None and sorted(":".join(x.split(":")[:5]) for x in oa) == sorted(":".join(x.split(":")[:5]) for x in ob)
+                return not (same and not (set(fields) - {"ord", "rord", "rs", "lru", "mru", "h", "hs"}))
             return incoherent or ("!" in opline and "panic" in (a.get("st"), b.get("st"))) or (" it " in opline and opline.split(" | ")[0].rstrip().endswith(" f"))
         if prop == "C13" and "len" in fields and op_name(opline) not in ("reserve", "tryreserve", "shrink", "shrinkfit", "new", "clone", "clonefrom"):
             # another number of entries after an insertion / removal: the capacity that follows from it is an echo;
@@ -655,7 +663,11 @@ def compare(ctx, res):
             # crate / the model's arithOf has a failing step), the other does not: the accounting arithmetic
             # (C01/C02) and the operation's own contract
             own = {"ins": "C10", "tins": "C10", "mut": "C11"}.get(op_name(ops[i]))
-            props = {"C01"} | ({own} if own else set())
+            if op_name(ops[i]) in ("ins", "tins", "mut", "rm", "rme", "rmlru", "rmmru", "setmax", "retain"):
+                props = {"C01"} | ({own} if own else set())
+            else:
+                # an operation that does no arithmetic on sizes panicked inside the crate: its own contract
+                props = set(line_props(ops[i], "ret")) or {"C07"}
             start = seq_of(ops, i)
             newp = {q for q in props if (start, q) not in seen_seq}
             for q in newp:
